@@ -216,6 +216,7 @@ fn explore(cx: &mut Ctx, rng: &mut Rng) {
         iterator_reentrancy_cases(&sweep.eps, &mut sink);
         extreme_depth_cases(&mut sink);
         meta_mutator_cases(&sweep.eps, thorough, &mut sink);
+        deferred_capture_cases(&mut sink);
     }
     if let Some(f) = &only {
         cases.retain(|c| c.apis.iter().any(|a| a.contains(f.as_str())));
@@ -247,6 +248,7 @@ fn explore(cx: &mut Ctx, rng: &mut Rng) {
         iterator_reentrancy_cases(&sweep.eps, &mut sink);
         extreme_depth_cases(&mut sink);
         meta_mutator_cases(&sweep.eps, thorough, &mut sink);
+        deferred_capture_cases(&mut sink);
     }
     let cases = std::mem::take(&mut b.buf);
     eprintln!("[c06] control-flow / register-pressure / iterator-reentrancy cases: {}", cases.len());
@@ -422,7 +424,13 @@ fn replay_known(cx: &mut Ctx) {
     for src in ["'abc'.split('').to_list()", "'abc'.split('').count()", "'héllo'.split('').to_tuple()"] {
         hang_probe_cases.push(Case { kind: 'R', text: src.to_string(), group: "hang-probe", apis: vec!["string.split".into()] });
     }
-    let outs = cx.pool.run_opts(&hang_probe_cases, Duration::from_millis(1500), false);
+    // unbounded recursion WRITTEN IN THE SCRIPT that goes through nested VM entries (native re-entry):
+    // the native stack overflows and the process is aborted — the property's stated exclusion; run
+    // and listed so that the exclusion is explicit
+    for src in ["m =\n  @+: |other| self + other\nm + 1\n", "f = |n| (n,).each(|x| f(x + 1)).consume()\nf 0\n", "f = |n| [n].transform(|x| f(x + 1))\nf 0\n", "o =\n  @display: || '{self}'\n'{o}'\n"] {
+        hang_probe_cases.push(Case { kind: 'R', text: src.to_string(), group: "excluded-recursion-probe", apis: vec!["excluded:script-recursion".into()] });
+    }
+    let outs = cx.pool.run_opts(&hang_probe_cases, Duration::from_millis(4000), false);
     for (c, o) in hang_probe_cases.iter().zip(outs.iter()) {
         cx.rep.case(&c.text, true);
         let cls = match o {
@@ -430,6 +438,16 @@ fn replay_known(cx: &mut Ctx) {
             Outcome::Died(_) => "died",
             Outcome::Json(_) => "returns",
         };
+        if c.group == "excluded-recursion-probe" {
+            let cls = match o {
+                Outcome::Hang => "hang".to_string(),
+                Outcome::Died(d) => format!("process death ({})", classify_death(d)),
+                Outcome::Json(v) => format!("returns {}", v["o"].as_str().unwrap_or("?")),
+            };
+            cx.rep.bump(&format!("excluded-recursion-probe:{}", cls));
+            cx.rep.note(format!("excluded by the property (unbounded recursion written in the script, through nested VM entries): {:?} → {}", c.text, cls));
+            continue;
+        }
         cx.rep.bump(&format!("hang-probe:{}", cls));
         cx.rep.note(format!("hang probe {:?}: {}", c.text, cls));
     }
@@ -455,6 +473,12 @@ fn main() {
                 v2["p"] = json!(sites);
             }
             println!("    {}", v2);
+            if std::env::var("C06_SHOW").is_ok() && v["o"] == "V" {
+                let mut k = new_koto();
+                if let Ok(val) = k.compile_and_run(part) {
+                    println!("    = {}", k.value_to_string(val).unwrap_or_default().chars().take(300).collect::<String>());
+                }
+            }
         }
         return;
     }
